@@ -38,13 +38,10 @@ RESPONSE_FORMS = [({}, {"error": "x"}), ({"retry-after": "0"}, "<html>502 Bad Ga
                   {"error": {"type": "es_rejected_execution_exception", "reason": "queue full"}, "status": 429}), ({"Retry-After": "3600"}, {})]
 
 
-def _response_form():
-    """one solver-chosen form per path, chosen when the first API error is built"""
-    c = core.ctx()
-    if not hasattr(c, "_c17_form"):
-        v = fresh_int("api_error_response_form", 0, len(RESPONSE_FORMS) - 1)
-        c._c17_form = core.concretize(v.z) if core.is_sym(v) else v
-    return RESPONSE_FORMS[c._c17_form]
+def _response_form(i):
+    """the form rotates with the attempt number (every form occurs at every residue of the attempt index over the harnesses' sequences;
+    a solver choice per path multiplied the quick tier beyond its budget)"""
+    return RESPONSE_FORMS[(i + 1) % len(RESPONSE_FORMS)]
 
 
 class FakeNodePool:
@@ -117,6 +114,18 @@ class Outcomes:
         return o
 
 
+# connection errors come in several shapes; all of them are connection errors of the client library
+CONNECTION_ERRORS = [lambda: elasticsearch.exceptions.ConnectionError("Connection refused", errors=()),
+                     lambda: elasticsearch.exceptions.ConnectionError("Connection error caused by: ProtocolError(('Connection aborted.', RemoteDisconnected('Remote end closed "
+                                                                      "connection without response')))", errors=()),
+                     lambda: elasticsearch.exceptions.SSLError("TLS handshake interrupted: EOF occurred in violation of protocol", errors=())]
+
+
+def _connection_error(i):
+    """the shape rotates with the attempt number"""
+    return CONNECTION_ERRORS[(i + 1) % len(CONNECTION_ERRORS)]()
+
+
 def raise_or_return(o, i):
     kind, status, items = o
     if kind == SUCCESS:
@@ -124,9 +133,9 @@ def raise_or_return(o, i):
     if kind == CONN_TIMEOUT:
         raise elasticsearch.exceptions.ConnectionTimeout("timeout", errors=())
     if kind == CONN_ERROR:
-        raise elasticsearch.exceptions.ConnectionError("refused", errors=())
+        raise _connection_error(i)
     if kind == API:
-        headers, body = _response_form()
+        headers, body = _response_form(i)
         raise elasticsearch.ApiError("api error", _meta(status, headers), body)
     if kind == AUTHN:
         raise elasticsearch.exceptions.AuthenticationException("authn", _meta(401), {})
